@@ -89,14 +89,6 @@ func varnames(tup *types.Tuple) []string {
 func stripVarName(v *types.Var) *types.Var {
 	return types.NewVar(v.Pos(), v.Pkg(), "", v.Type())
 }
-func outs(num int, last string) string {
-	outs := make([]string, num)
-	for i := 0; i < num-1; i++ {
-		outs[i] = fmt.Sprintf("out%d", i)
-	}
-	outs[num-1] = last
-	return strings.Join(outs, ", ")
-}
 
 type basicErrorType struct {
 	types.Type
@@ -129,13 +121,33 @@ func (g *gen) genFuncFor(deriveFuncName string, ftyp *types.Signature) error {
 	p.P("return %s {", g.TypeString(newSigType))
 	p.In()
 	as := varnames(newSigType.Params())
-	p.P("%s := f(%s)", outs(rlen, "success"), strings.Join(as, ", "))
-	p.P("if success {")
+	// the results of f are declared next to its parameters: their names keep clear of them
+	taken := make(map[string]bool, len(as))
+	for _, a := range as {
+		taken[a] = true
+	}
+	fresh := func(name string) string {
+		for taken[name] {
+			name += "_"
+		}
+		taken[name] = true
+		return name
+	}
+	results := make([]string, rlen)
+	for i := 0; i < rlen-1; i++ {
+		results[i] = fresh(fmt.Sprintf("out%d", i))
+	}
+	success := fresh("success")
+	results[rlen-1] = success
+	p.P("%s := f(%s)", strings.Join(results, ", "), strings.Join(as, ", "))
+	p.P("if %s {", success)
 	p.In()
-	p.P("return %s", outs(rlen, "nil"))
+	results[rlen-1] = "nil"
+	p.P("return %s", strings.Join(results, ", "))
 	p.Out()
 	p.P("}")
-	p.P("return %s", outs(rlen, "err"))
+	results[rlen-1] = "err"
+	p.P("return %s", strings.Join(results, ", "))
 	p.Out()
 	p.P("}")
 	p.Out()
